@@ -203,7 +203,7 @@ def run_check(prop, tier, seed, replay=None):
             except Exception:  # noqa: BLE001
                 pass
         if (s, "watchdog") not in dead:
-            tail = open(os.path.join(work, "shard%d.log" % s)).read()[-2000:]
+            tail = open(os.path.join(work, "shard%d.log" % s)).read()[-1500:]
             dead.append((s, "crashed rc=%s: %s" % (p.returncode, tail)))
 
     rc = aggregate(prop, tier, seed, plan, shards, dead, time.time() - t0)
@@ -272,7 +272,8 @@ def aggregate(prop, tier, seed, plan, shards, dead, wall):
 
     reasons = []
     for s, why in dead:
-        reasons.append("shard %d %s" % (s, why[:300]))
+        if len(reasons) < 3:
+            reasons.append("shard %d %s" % (s, why[-700:].replace("\n", " | ")))
     if not shards:
         reasons.append("no shard produced a result")
     need = mod.required(tier) if hasattr(mod, "required") else {}
